@@ -89,6 +89,23 @@ def run(tier, v):
         base, nx, capped = ex.explore(sc, {"kill", "fail", "sig"}, 2 if tier == "thorough" else 1, oracle, opt=opt)
         v.subspace("%s: every op x {kill, fail(errno menu), SIGINT, SIGTERM}" % sc.name, nx, exhaustive=not capped,
                    ops_in_fault_free_run=len(base.trace))
+    # --- whatever the tree contains: every state a killed / failed / interrupted *edit* run can leave behind (temp files, a half-way
+    #     lock file, partially updated trees), then --check on it under the monitor
+    def oracle_post(sc, base, x):
+        v.count()
+        v.distinct((sc.name, "post", x.terminated(), tuple(x.tmp), str(x.lock)))
+        bad = []
+        if x.post_mut_ops:
+            bad.append(("check-after-interrupted-edit:mutating-call", x.post_mut_ops[:3]))
+        if x.post_snap_diff:
+            bad.append(("check-after-interrupted-edit:snapshot-differs", x.post_snap_diff))
+        for cls, what in bad:
+            v.violation(cls, {"scenario": sc.name, "edit_plan": fsx.plan_str(x.plan), "what": repr(what)[:600]},
+                        replay_files=_replay_files(sc, x), replay_cmd=_replay_cmd(sc, x) + "\n# then: breadlog -c $W/proj/Breadlog.yaml --check  (and compare the directory before/after)")
+    for mk in (scenarios.s2, scenarios.s3, scenarios.s6):
+        sc = mk(check=False)
+        base, nx, capped = ex.explore(sc, {"kill", "fail", "sig"}, 1, oracle_post, opt={"then_check_monitored": True})
+        v.subspace("%s: --check on the state left by an edit run with every kill / fault / signal at every operation" % sc.name, nx, exhaustive=not capped)
     ex.close()
     v.coverage["rule"] = ("one evaluation = one --check run of the real binary under the interposer; oracle = no mutating libc call except "
                           "writes to fd 1/2 + identical content/mode/mtime/inode snapshots of project, TMPDIR, cwd, outside dir; "
